@@ -247,12 +247,15 @@ PROPS["C08"] = dict(
         R("part", "plain", 16, 81, ["mode=exh"], partition=True),
         R("part", "asan", 8, 12, ["mode=rand"]),
         R("part", "plain", 8, 60, ["mode=rand"]),
+        R("part", "plain", 2, 2, ["mode=huge"], partition=True),
     ],
     thorough=[
         R("part", "asan", 16, 81, ["mode=exh"], partition=True),
         R("part", "plain", 16, 66, ["mode=exh4"], partition=True),
         R("part", "asan", 16, 400, ["mode=rand"], timeout=7200),
         R("part", "plain", 16, 4000, ["mode=rand"], timeout=7200),
+        R("part", "plain", 8, 8, ["mode=huge"], partition=True),
+        R("part", "asan", 2, 2, ["mode=huge"], partition=True),
     ],
     rule="every rank 0..N of each tuple is one (tuple, rank) pair. exh: ALL tuples of 1..3 sorted "
          "sequences of length 1..4 over {0,1,2} (40494 tuples; thorough adds all 130321 tuples of 4 "
@@ -592,6 +595,7 @@ PROPS["C12"] = dict(
         R("cptr", "asan", 4, 30, ["mode=serial"]),
         R("cptr", "tsan", 4, 20, ["mode=jitter"], timeout=300),
         R("cptr", "asan", 2, 20, ["mode=jitter"], timeout=300),
+        R("cptr", "plain", 1, 1, ["mode=wide"]),
     ],
     thorough=[
         R("cptr", "asan", 16, 15000, ["mode=seq"], timeout=7200),
@@ -599,6 +603,8 @@ PROPS["C12"] = dict(
         R("cptr", "asan", 8, 1000, ["mode=serial"], timeout=7200),
         R("cptr", "tsan", 8, 600, ["mode=jitter"], timeout=3600),
         R("cptr", "asan", 4, 600, ["mode=jitter"], timeout=3600),
+        R("cptr", "plain", 2, 2, ["mode=wide"], timeout=3600),
+        R("cptr", "ndebug", 1, 1, ["mode=wide"], timeout=3600),
     ],
     rule="mode=seq: a case = 20 histories of 20..250 operations over 5 CountingPtr<Obj>, 2 CountingPtr<Der> and 2 "
          "CountingPtr<const Obj> handle variables with the default deleter, a call-counting deleter or the no-delete "
@@ -760,3 +766,45 @@ _nd("C13", [R(u, "ndebug", 1, 300) for u in ("dary", "addr", "radix_narrow", "ra
     [R(u, "ndebug", 4, 10000, timeout=7200) for u in ("dary", "addr", "radix_narrow", "radix_wide")])
 _nd("C16", [R("rb", "ndebug", 4, 3000)], [R("rb", "ndebug", 16, 40000, timeout=7200)])
 _nd("C17", [R("lru_splay", "ndebug", 4, 300)], [R("lru_splay", "ndebug", 16, 10000, timeout=7200)])
+
+
+# ----------------------------------------------------------------------------- previous language standard
+# tlx builds with whatever standard the compiler offers, from C++20 down to C++11, and the standard
+# library's defaults differ between them (std::atomic's default constructor leaves the value
+# indeterminate before C++20, C++20 adds rewritten comparison candidates, ...). Every property gets one
+# ASan+UBSan run of its main workload compiled as C++17 (variant asan17; ASan also fills fresh heap
+# memory with a non-zero pattern, so "relies on zeroed storage" shows).
+def _v17(prop, quick, thorough):
+    PROPS[prop]["quick"] = PROPS[prop]["quick"] + quick
+    PROPS[prop]["thorough"] = PROPS[prop]["thorough"] + thorough
+    PROPS[prop]["rule"] += " One run of the main workload is compiled as C++17 (ASan+UBSan)."
+
+
+_v17("C01", _bt_runs([(5, 4)], "asan17", 150, "C01"), _bt_runs([(5, 4), (8, 8)], "asan17", 1500, "C01", timeout=7200))
+_v17("C02", _bt_runs([(4, 7)], "asan17", 60, "C02", heavy_div=6), _bt_runs([(4, 7), (7, 16)], "asan17", 1200, "C02", timeout=7200, heavy_div=6))
+_v17("C03", [R("ss", "asan17", 4, 6)], [R("ss", "asan17", 16, 60, timeout=7200)])
+_v17("C04", [R("pss0", "asan17", 1, 30, ["mode=serial"])], [R("pss%d" % i, "asan17", 4, 100, ["mode=serial"], timeout=7200) for i in range(3)])
+_v17("C05", [R("mwm", "asan17", 4, 10)], [R("mwm", "asan17", 16, 200, timeout=7200)])
+_v17("C06", [R("pms", "asan17", 3, 12)], [R("pms", "asan17", 8, 150, timeout=7200)])
+_v17("C07", [R("pmwm", "asan17", 3, 50)], [R("pmwm", "asan17", 8, 600, timeout=7200)])
+_v17("C08", [R("part", "asan17", 4, 6, ["mode=rand"])], [R("part", "asan17", 16, 100, ["mode=rand"], timeout=7200)])
+_v17("C09", [R("lt", "asan17", 4, 20)], [R("lt", "asan17", 16, 600, timeout=7200)])
+_v17("C10", [R("pool", "asan17", 4, 20, ["mode=serial"])], [R("pool", "asan17", 16, 500, ["mode=serial"], timeout=7200)])
+_v17("C11", [R("sync", "asan17", 4, 40, ["mode=serial"])], [R("sync", "asan17", 16, 800, ["mode=serial"], timeout=7200)])
+_v17("C12", [R("cptr", "asan17", 4, 80, ["mode=seq"]), R("cptr", "asan17", 4, 20, ["mode=serial"])],
+     [R("cptr", "asan17", 8, 2000, ["mode=seq"], timeout=7200), R("cptr", "asan17", 8, 500, ["mode=serial"], timeout=7200)])
+_v17("C13", [R(u, "asan17", 1, 100) for u in _C13_PARTS], [R(u, "asan17", 4, 4000, timeout=7200) for u in _C13_PARTS])
+_v17("C14", [R("digest", "asan17", 8, 1101, ["mode=len", "splits_upto=40"], partition=True), R("digest", "asan17", 4, 4, ["mode=sip"])],
+     [R("digest", "asan17", 16, 1101, ["mode=len", "splits_upto=300"], partition=True, timeout=7200), R("digest", "asan17", 8, 100, ["mode=sip"], timeout=7200)])
+_v17("C15", [R("nets", "asan17", 12, 12, ["mode=zo"], partition=True), R("nets_rand", "asan17", 4, 25, ["mode=rand"])],
+     [R("nets", "asan17", 15, 15, ["mode=zo"], partition=True, timeout=7200), R("nets_rand", "asan17", 16, 2000, ["mode=rand"], timeout=7200)])
+_v17("C16", [R("rb", "asan17", 4, 800)], [R("rb", "asan17", 16, 4000, timeout=7200)])
+_v17("C17", [R("lru_splay", "asan17", 4, 60)], [R("lru_splay", "asan17", 16, 4000, timeout=7200)])
+_v17("C18", [R("sv", "asan17", 16, 977, ["mode=exh", "stride=4"], partition=True), R("sv", "asan17", 4, 20, ["mode=rand"])],
+     [R("sv", "asan17", 16, 3906, ["mode=exh"], partition=True, timeout=7200), R("sv", "asan17", 16, 1000, ["mode=rand"], timeout=7200)])
+_v17("C19", [R("str", "asan17", 16, 585, ["mode=exh"], partition=True), R("str", "asan17", 4, 15, ["mode=rand"]), R("str", "asan17", 4, 260, ["mode=codec"], partition=True)],
+     [R("str", "asan17", 16, 4681, ["mode=exh"], partition=True, timeout=7200), R("str", "asan17", 16, 500, ["mode=rand"], timeout=7200)])
+_v17("C20", [R("math", "asan17", 1, 3, ["mode=small"], partition=True), R("math", "asan17", 4, 4096, ["mode=w32", "stride=8192"], partition=True),
+             R("math", "asan17", 2, 20, ["mode=w64"]), R("math", "asan17", 2, 30, ["mode=agg"])],
+     [R("math", "asan17", 1, 3, ["mode=small"], partition=True), R("math", "asan17", 16, 4096, ["mode=w32", "stride=512"], partition=True, timeout=7200),
+      R("math", "asan17", 8, 400, ["mode=w64"], timeout=7200), R("math", "asan17", 4, 600, ["mode=agg"], timeout=7200)])
